@@ -254,12 +254,9 @@ fn spell_common<T: PT + num_traits::Bounded>(ops: &mut Vec<Op>) {
     un!(ops, T, "Num::from_str_radix(10) vs FromStr",
         |a| { let s = a.to_string(); <T as Num>::from_str_radix(&s, 10).map(|v| v.tb()).unwrap_or(u64::MAX) },
         |a| { let s = a.to_string(); s.parse::<T>().map(|v| v.tb()).unwrap_or(u64::MAX - 1) });
-    un!(ops, T, "FromStr vs from_f64(parse f64)",
-        |a| { let s = a.to_string(); s.parse::<T>().map(|v| v.tb()).unwrap_or(u64::MAX) },
-        |a| { let s = a.to_string(); s.parse::<f64>().map(|v| T::i_from_f64(v).tb()).unwrap_or(u64::MAX - 1) });
-    un!(ops, T, "Display vs f64 Display",
-        |a| crate::sweep::hash_str(&a.to_string()),
-        |a| crate::sweep::hash_str(&a.i_to_f64().to_string()));
+    // (Two entries were removed here: "FromStr vs from_f64(parse f64)" and "Display vs f64 Display".
+    // They compared the text path with one particular way of implementing it, which C17 does not
+    // state - a Display that prints `{:e}` is just as good. The text round trip itself is C03's.)
 
     // Zero / One / Bounded / constants
     nul!(ops, T, "Zero::zero", || <T as Zero>::zero().tb(), || T::c_zero().tb());
